@@ -175,7 +175,8 @@ ThDef ==        \* k-th largest tent value = Bubenik's definition (sup of the h 
 ThSort ==       \* the k-th largest by sorting = the k-th largest by counting, also through expressions
   Mode = "single" =>
     /\ \A k \in 1..K : \A T \in Dom : LamS(D0, k, T) = R0[k][T]
-    /\ LET E == [terms |-> <<[n |-> -3, D |-> D0], [n |-> 2, D |-> Reverse(D0)]>>, den |-> 4, abs |-> TRUE]
+    /\ CheckDef =>
+       LET E == [terms |-> <<[n |-> -3, D |-> D0], [n |-> 2, D |-> Reverse(D0)]>>, den |-> 4, abs |-> TRUE]
            rs == RowsS(E, Dom)
        IN \A k \in 1..(Len(D0) + 1) : rs[k] = ERow(E, k, Dom) /\ \A T \in Dom : rs[k][T] = Val(E, k, T)
 
